@@ -247,6 +247,7 @@ def handleMachine (st : DState) (ws : List String) : Option (DState × String) :
     some (st, if st.m.callStack.isEmpty then "none" else " ".intercalate (st.m.callStack.map toHex))
   | ["render"] => some (st, "ok")
   | ["nonative"] => some (st, "-")
+  | ["errtext", _] => some (st, "-")
   | ["table"] =>
     -- the implemented instruction forms according to the model's dispatch table
     some (st, " ".intercalate ((table.filter fun (_, h) => match h with | .unimplemented => false | _ => true).map (·.1)))
